@@ -224,11 +224,13 @@ def server(R):
     ok = len(ec.args) + len(ec.keywords) == 2
     cf = R.func(WS + '.close')
     a_code, a_reason = arg_of(ec, cf, 'code'), arg_of(ec, cf, 'reason')
-    ok = a_code is not None and a_reason is not None and U(a_code) == mp + '.code' and U(a_reason) == mp + '.reason'
+    from .common import otext
+    ok = a_code is not None and a_reason is not None and otext(R, g, en, a_code) == mp + '.code' \
+        and otext(R, g, en, a_reason) == mp + '.reason'
     R.ob('C08.server', 'echo carries the message\'s own code and reason', ok, 'echo is close(%s)' % ', '.join(
         U(a) for a in ec.args), func=f, node=ec)
     ev = y.ast.value
-    ok = [U(a) for a in ev.args] == [mp + '.code', mp + '.reason']
+    ok = [otext(R, g, y, a) for a in ev.args] == [mp + '.code', mp + '.reason']
     R.ob('C08.server', 'Closing reports the message\'s code and reason', ok, 'Closing(%s)' % ', '.join(U(a) for a in ev.args),
          func=f, node=ev)
     before = [m for m in g.reachable([g.entry], avoid={y}, skip_edge=nx) if y in g.reachable([m], skip_edge=nx)]
